@@ -141,6 +141,8 @@ fn real_main() -> i32 {
         "first" => families::first(&a),
         "resume" => families::resume(&a),
         "reconn" => families::reconn(&a),
+        "reuse" => families::reuse(&a),
+        "backlog" => families::backlog(&a),
         "chunk" => families::chunk(&a),
         "fuzz" => families::fuzz(&a),
         "endings" => families::endings(&a),
